@@ -4,7 +4,7 @@ from __future__ import annotations
 import ast
 
 from .common import site_of
-from .flow import (own, facts_imply_nonempty, helpers_of, both_answers, Oblig, calls, events, deps_of, arg_deps, SELF, P, facts_on_path, has_fact, check_escapes)
+from .flow import (code_nodes, own, facts_imply_nonempty, helpers_of, both_answers, Oblig, calls, events, deps_of, arg_deps, SELF, P, facts_on_path, has_fact, check_escapes)
 
 LL = "pyformlang.cfg.llone_parser.LLOneParser"
 EXPLANATION = (
@@ -117,7 +117,8 @@ def run(eng, rep, tier):
               "nullable productions are entered under the FOLLOW symbols of their head",
               "the table does not use nullability at all", st_, site=site_of(prog, ft, ft.node))
     overwrites = []
-    for sub in ast.walk(ft.node):
+    ft_nodes = code_nodes(prog, ft)          # the fill may live in private helpers / module functions
+    for sub in (x for fn_ in ft_nodes for x in ast.walk(fn_)):
         if isinstance(sub, ast.Assign) and any(isinstance(tg, ast.Subscript) and isinstance(tg.value, ast.Subscript)
                                                for tg in sub.targets):
             if not (isinstance(sub.value, ast.List) and not sub.value.elts):
@@ -126,22 +127,26 @@ def run(eng, rep, tier):
     def _cell_expr(e):
         return isinstance(e, ast.Subscript) or (isinstance(e, ast.Call) and isinstance(e.func, ast.Attribute)
                                                 and e.func.attr in ("setdefault", "get"))
-    appends = [c for c in ast.walk(ft.node) if isinstance(c, ast.Call) and isinstance(c.func, ast.Attribute)
+    appends = [(fn_, c) for fn_ in ft_nodes for c in ast.walk(fn_) if isinstance(c, ast.Call) and isinstance(c.func, ast.Attribute)
                and c.func.attr == "append" and _cell_expr(c.func.value)]
     from .flow import _path_to
     conditional = []
-    for c in appends:
-        anc = _path_to(ft.node, c)
+    for fn_, c in appends:
+        anc = _path_to(fn_, c)
         fors = [i for i, a in enumerate(anc) if isinstance(a, ast.For)]
         inner = anc[fors[-1]:] if fors else anc
         if any(isinstance(a, ast.If) for a in inner):
             conditional.append(c)
+    # how many fills reach a cell: counted on the events (a shared helper is one append site but two fills)
+    roots = {l[0] for l in st_.ret.alias if l[0].startswith("fresh:")}
+    cell_appends = [ev for ev in own(st_) if ev.kind == "write" and ev.wkind == "mutate:append" and ev.recv is not None
+                    and any(l[0] in roots and len(l[1]) >= 2 and l[1][-2:] == ("[]", "[]") for l in ev.recv.alias)]
     ob.decide("R1", "C14.3", ft, "every-production-recorded", bool(appends) and not conditional,
               "inside the fill loops every production is appended to its cell unconditionally",
               "a production is only recorded when its cell is new: a second production for the same cell is dropped and "
               "the conflict is hidden from is_llone_parsable", None,
               site=site_of(prog, ft, conditional[0] if conditional else ft.node))
-    ob.decide("R1", "C14.3", ft, "cells-accumulate", len(appends) >= 2 and not overwrites,
+    ob.decide("R1", "C14.3", ft, "cells-accumulate", (len(cell_appends) >= 2 or len(appends) >= 2) and not overwrites,
               "both fills append to the cell (conflicts stay visible)",
               "a table cell is overwritten instead of accumulated: conflicts are hidden from is_llone_parsable", None,
               site=site_of(prog, ft, (overwrites[0] if overwrites else ft.node)))
@@ -156,16 +161,37 @@ def run(eng, rep, tier):
     # -------------------------------------------------------------- C14.4 fixpoint worklists
     for meth in ("get_first_set", "get_follow_set"):
         f = prog.method("LLOneParser", meth)
-        ok = False
-        for sub in ast.walk(f.node):
-            if isinstance(sub, ast.If) and isinstance(sub.test, ast.Compare) and "len(" in ast.unparse(sub.test) and \
-                    isinstance(sub.test.ops[0], ast.NotEq):
-                if any(_requeues(c, helpers_of(prog, f)) for c in ast.walk(sub) if isinstance(c, ast.Call)):
-                    ok = True
-        whiles = [w for w in ast.walk(f.node) if isinstance(w, ast.While)]
-        ob.decide("R10a", "C14.4", f, "requeue-on-growth", ok and bool(whiles),
+        sm = interp.run_entry(f, LL)
+        evs = own(sm)
+        # the worklist = what is popped in the loop; a re-queue = an append on it inside the loop; `under the test the
+        # set grew` = some branch fact at the append says len(<set>) != <length before> (written as `!=` taken, or as
+        # `==` not taken through an early continue)
+        def _op(ev, names):
+            """the event is `<recv>.<name>(..)` for a builtin container (write event) or a repository queue class (call)"""
+            if ev.recv is None:
+                return False
+            if ev.kind == "write" and ev.wkind in tuple("mutate:" + n for n in names):
+                return True
+            return ev.kind == "call" and (ev.callee or "").rsplit(".", 1)[-1] in names
+        popped = frozenset().union(*[ev.recv.alias for ev in evs if _op(ev, ("pop", "popleft", "get"))] or [frozenset()])
+        requeues = [ev for ev in evs if _op(ev, ("append", "extend", "put", "appendleft")) and ev.recv.alias & popped and ev.ctrl]
+
+        def grew(ev):
+            for text, pol, _n in ev.facts:
+                try:
+                    e = ast.parse(text, mode="eval").body
+                except SyntaxError:
+                    continue
+                if isinstance(e, ast.Compare) and len(e.ops) == 1 and any(
+                        isinstance(c, ast.Call) and getattr(c.func, "id", "") == "len" for c in ast.walk(e)):
+                    if (isinstance(e.ops[0], ast.NotEq) and pol) or (isinstance(e.ops[0], ast.Eq) and not pol) or \
+                            (isinstance(e.ops[0], (ast.Gt, ast.Lt)) and pol):
+                        return True
+            return False
+        guarded = [ev for ev in requeues if grew(ev)]
+        ob.decide("R10a", "C14.4", f, "requeue-on-growth", bool(popped) and bool(guarded),
                   "dependants are re-queued under the test `the set grew`",
-                  "%s does not re-queue dependants when a set grows (or always does)" % meth, None,
+                  "%s does not re-queue dependants when a set grows (or always does)" % meth, sm,
                   site=site_of(prog, f, f.node))
     fs = prog.method("LLOneParser", "get_follow_set")
     sf = interp.run_entry(fs, LL)
